@@ -37,3 +37,38 @@ func RetResults(ret *ssa.Return) []ssa.Value {
 	}
 	return out
 }
+
+// deadRecover: b is the function's recover block and no deferred function
+// of it can call recover(), so control never resumes there.
+func deadRecover(b *ssa.BasicBlock) bool {
+	fn := b.Parent()
+	if fn.Recover != b {
+		return false
+	}
+	callsRecover := false
+	var visit func(f *ssa.Function, depth int)
+	visit = func(f *ssa.Function, depth int) {
+		if f == nil || f.Blocks == nil || depth == 0 {
+			return
+		}
+		EachInstr(f, func(in ssa.Instruction) {
+			if c, ok := in.(ssa.CallInstruction); ok {
+				if bi, ok := c.Common().Value.(*ssa.Builtin); ok && bi.Name() == "recover" {
+					callsRecover = true
+				}
+			}
+		})
+	}
+	EachInstr(fn, func(in ssa.Instruction) {
+		if d, ok := in.(*ssa.Defer); ok {
+			if callee := staticCallee(d); callee != nil {
+				visit(callee, 2)
+			} else if !d.Call.IsInvoke() {
+				if _, isBuiltin := d.Call.Value.(*ssa.Builtin); !isBuiltin {
+					callsRecover = true // unknown deferred function value: be conservative
+				}
+			}
+		}
+	})
+	return !callsRecover
+}
